@@ -9,8 +9,9 @@ env.use_repo()
 _PIECE_CACHE = {}
 
 
-def strip_comments(sql, hash_comments=False):
-    """own lexer: removes -- / # (optional) line comments and /* */ block comments outside quotes"""
+def strip_comments(sql, hash_comments=False, nested=False, backslash=True):
+    """own lexer: removes -- / # (optional) line comments and /* */ block comments outside quotes; nested: block comments nest (tsql, postgres);
+    backslash: a backslash escapes the next character of a single-quoted literal (mysql, bigquery, spark ...; not tsql / postgres)"""
     out = []
     i, n = 0, len(sql)
     while i < n:
@@ -18,7 +19,7 @@ def strip_comments(sql, hash_comments=False):
         if c in "'\"`":
             j = i + 1
             while j < n:
-                if sql[j] == "\\" and c == "'" and j + 1 < n:
+                if backslash and sql[j] == "\\" and c == "'" and j + 1 < n:
                     j += 2
                     continue
                 if sql[j] == c:
@@ -35,8 +36,18 @@ def strip_comments(sql, hash_comments=False):
             out.append(" ")
             i = j
         elif sql.startswith("/*", i):
-            j = sql.find("*/", i + 2)
-            j = n if j < 0 else j + 2
+            if nested:
+                depth, j = 1, i + 2
+                while j < n and depth:
+                    if sql.startswith("/*", j):
+                        depth, j = depth + 1, j + 2
+                    elif sql.startswith("*/", j):
+                        depth, j = depth - 1, j + 2
+                    else:
+                        j += 1
+            else:
+                j = sql.find("*/", i + 2)
+                j = n if j < 0 else j + 2
             out.append(" ")
             i = j
         else:
@@ -45,8 +56,11 @@ def strip_comments(sql, hash_comments=False):
     return "".join(out)
 
 
-def norm(sql, hash_comments=False):
-    s = strip_comments(sql, hash_comments)
+LEXER = {"tsql": {"nested": True, "backslash": False}, "postgres": {"nested": True, "backslash": False}}
+
+
+def norm(sql, hash_comments=False, **lex):
+    s = strip_comments(sql, hash_comments, **lex)
     s = re.sub(r"\s+", " ", s).strip()
     while s.endswith(";"):
         s = s[:-1].rstrip()
@@ -106,7 +120,15 @@ def run_script(arg):
     alone = [_alone(p, dialect, cfg) for p in pieces]
     bad = [a["error"] for a in alone if "error" in a]
     if bad:
-        return {"skipped": bad}
+        out = {"skipped": bad, "skipped_pieces": [p for p, a in zip(pieces, alone) if "error" in a]}
+        if arg.get("trap"):
+            # a lexer-trap piece that cannot be analysed alone: does the dialect's own parser accept it? (independent oracle)
+            from . import errors
+
+            with warnings.catch_warnings():
+                warnings.simplefilter("ignore")
+                out["pieces_accepted_by_sqlfluff"] = all(errors.sqlfluff_accepts(p, dialect) is True for p, a in zip(pieces, alone) if "error" in a)
+        return out
     script = seps[0]
     for p, s in zip(pieces, seps[1:]):
         script += p + s
@@ -117,16 +139,17 @@ def run_script(arg):
     out = {"script": script, "outcome": "ok" if rec["outcome"] == "ok" else rec["outcome"]["exc_type"]}
     if rec["outcome"] != "ok":
         out["message"] = rec["outcome"]["message"]
-        if cfg.get("TSQL_NO_SEMICOLON") and out["outcome"] == "InvalidSyntaxException":
+        if (cfg.get("TSQL_NO_SEMICOLON") or arg.get("trap")) and out["outcome"] == "InvalidSyntaxException":
             # without semicolons the whole batch must be parsable by sqlfluff; ask sqlfluff itself (independent oracle)
             from . import errors
 
             with warnings.catch_warnings():
                 warnings.simplefilter("ignore")
-                out["batch_accepted_by_sqlfluff"] = errors.sqlfluff_accepts(script.strip(), "tsql")
+                out["batch_accepted_by_sqlfluff"] = errors.sqlfluff_accepts(script.strip(), dialect)
         return out
-    out["statements"] = [norm(s, hashc) for s in rec["statements"]]
-    out["expected_statements"] = [norm(p, hashc) for p in pieces]
+    lex = LEXER.get(dialect, {})
+    out["statements"] = [norm(s, hashc, **lex) for s in rec["statements"]]
+    out["expected_statements"] = [norm(p, hashc, **lex) for p in pieces]
     out["n_analyzed"] = len(rec["per_statement"])
     st = taps.state()
     was = st["active"]
